@@ -132,6 +132,20 @@ def key(e):
 def compare(kind):
     """returns (current entries, problems[list of str], reviewed entries)"""
     cur = scan(kind)
+    if kind == 'panic':
+        # a site that merely moves to another function of the same file (a helper is extracted, a function renamed) is
+        # the same site: panic sites are matched by file and normalised snippet
+        global key
+        saved = key
+        key = lambda e: (e['file'], None, e['snippet'], ())
+        try:
+            return _compare(kind, cur)
+        finally:
+            key = saved
+    return _compare(kind, cur)
+
+
+def _compare(kind, cur):
     path = os.path.join(INV_DIR, kind + '.json')
     if not os.path.exists(path):
         return cur, ['no reviewed inventory %s' % path], []
@@ -146,9 +160,14 @@ def compare(kind):
     for k, n in ck.items():
         if rk.get(k, 0) < n:
             problems.append('new or changed site: %s fn %s: %s %s' % (k[0], k[1], k[2], list(k[3]) or ''))
+    # a reviewed site that is gone (an unwrap removed, a static dropped) cannot break a property: it is only reported when
+    # something new appeared as well (then it usually is the old form of the changed site)
+    vanished = []
     for k, n in rk.items():
         if ck.get(k, 0) < n:
-            problems.append('site vanished or changed: %s fn %s: %s %s' % (k[0], k[1], k[2], list(k[3]) or ''))
+            vanished.append('site vanished or changed: %s fn %s: %s %s' % (k[0], k[1], k[2], list(k[3]) or ''))
+    if problems:
+        problems.extend(vanished)
     return cur, problems, rev
 
 
